@@ -104,3 +104,235 @@ def _(c):
         return z3.And(j >= 0, j < n, s.result.ref == s.self.entries[j], s.result.tag == STR('TIMESTAMP'),
                       no_timestamp(s, s.self.entries, j))
     c.ensures('first-timestamp-or-none', post)
+
+
+# --------------------------------------------------------------------------
+# hash-name table (C17)
+
+GLEP74_HASHES = {      # Manifest hash name -> hashlib algorithm, written from GLEP 74 / the statement of C17
+    'MD5': 'md5', 'SHA1': 'sha1', 'SHA256': 'sha256', 'SHA512': 'sha512', 'RMD160': 'ripemd160',
+    'WHIRLPOOL': 'whirlpool', 'BLAKE2B': 'blake2b', 'BLAKE2S': 'blake2s',
+    'SHA3_256': 'sha3_256', 'SHA3_512': 'sha3_512',
+}
+
+
+def table_term(h):
+    t = z3.StringVal('')
+    for k, v in GLEP74_HASHES.items():
+        t = z3.If(h == STR(k), STR(v), t)
+    return t
+
+
+def in_table(h):
+    return z3.Or(*[h == STR(k) for k in GLEP74_HASHES])
+
+
+@contract('gemato/manifest.py', 'manifest_hashes_to_hashlib', props=['C17', 'C18'])
+def _(c):
+    c.params(hashes=SeqT(Str))
+    c.generator = True
+    c.only_raises('UnsupportedHash')
+    c.loop(1, header='for h in hashes', inv=[])
+    c.yield_ensures('yields-the-algorithm-the-name-denotes',
+                    lambda s, y: z3.And(in_table(s.cur.h), y == table_term(s.cur.h)))
+    c.exc_ensures('unsupported-only-for-names-outside-the-table', 'UnsupportedHash',
+                  lambda s: z3.Not(in_table(s.cur.h)))
+
+    def table_matches(repo):
+        import ast
+        m = repo.modules['gemato.manifest']
+        got = ast.literal_eval(m.assigns['MANIFEST_HASH_MAPPING'])
+        return got == GLEP74_HASHES, {'extracted': got}
+    c.const('MANIFEST_HASH_MAPPING-is-the-GLEP74-table', table_matches)
+
+
+# --------------------------------------------------------------------------
+# escape codec: decode_char / process_path (C09, C18; C08 per code point)
+
+import re as _re
+from vp.symex import PyRaise, Unsupported
+from vp.values import _other
+
+HEXRE = z3.Union(z3.Range('0', '9'), z3.Range('a', 'f'), z3.Range('A', 'F'))
+
+
+def hex_group_re():
+    """language of group 1 of escape_seq_re, derived from the pattern text of the real class attribute"""
+    return z3.Union(z3.Concat(z3.Re('x'), z3.Loop(HEXRE, 2, 2)),
+                    z3.Concat(z3.Re('u'), z3.Loop(HEXRE, 4, 4)),
+                    z3.Concat(z3.Re('U'), z3.Loop(HEXRE, 8, 8)))
+
+
+def hexdigit(c):
+    return z3.If(z3.And(c >= 48, c <= 57), c - 48,
+                 z3.If(z3.And(c >= 65, c <= 70), c - 55,
+                       z3.If(z3.And(c >= 97, c <= 102), c - 87, -1)))
+
+
+def hexval(s, n):
+    """int(s, 16) for a string of exactly n hex digits (definitional)"""
+    t = z3.IntVal(0)
+    for i in range(n):
+        t = t + hexdigit(z3.StrToCode(z3.SubString(s, i, 1))) * (16 ** (n - 1 - i))
+    return t
+
+
+def int16_hook(it, v, base, node):
+    """exact model of int(s, base=16) for s of 2, 4 or 8 hex digits"""
+    if base is None:
+        return None
+    b = it.ctx.force(base)
+    if not (isinstance(b, VInt) and z3.is_int_value(simp(b.t)) and simp(b.t).as_long() == 16):
+        return None
+    for n in (2, 4, 8):
+        if it.ctx.branch(z3.And(z3.Length(v.t) == n, z3.InRe(v.t, z3.Loop(HEXRE, n, n))), 'hexlen%d' % n):
+            return VInt(hexval(v.t, n))
+    return None
+
+
+class MatchT(Ty):
+    """match object of ManifestPathEntry.escape_seq_re (A-re): group(1) is None or x HH | u HHHH | U HHHHHHHH"""
+
+    def sort(self):
+        return z3.StringSort()
+
+    def fresh(self, ctx, name):
+        g1 = Opt(Str).fresh(ctx, name + '.group1')
+        for g, a in g1.alts:
+            if isinstance(a, VStr):
+                ctx.assume(z3.Implies(g, z3.InRe(a.t, hex_group_re())))
+                ctx.assume(z3.Implies(g, z3.Or(*[z3.Length(a.t) == n for n in (3, 5, 9)])))
+        m = VOpaque(_other('match', z3.String(name)), 'other')
+
+        def group(it, a, k, n):
+            i = simp(it.ctx.force(a[0]).t).as_long()
+            if i == 1:
+                return g1
+            raise Unsupported('group(%d)' % i, n)
+        gf = VFunc('match.group', group)
+        gf.bind = False
+        st = VFunc('match.start', lambda it, a, k, n: VInt(it.ctx.fresh_const('mstart', z3.IntSort())))
+        st.bind = False
+        m.attrs = {'group': gf, 'start': st, 'string': VStr(ctx.fresh_const('mstring', z3.StringSort()))}
+        m.group1 = g1
+        return m
+
+    def encode(self, v, ctx=None):
+        return Opt(Str).encode(v.group1)
+
+    def __repr__(self):
+        return 'MatchT'
+
+
+@contract('gemato/manifest.py', 'ManifestPathEntry.decode_char', props=['C09', 'C18', 'C08'])
+def _(c):
+    c.params(m=MatchT())
+    c.returns(Str)
+    c.only_raises('ManifestSyntaxError')
+    c.engine_opts = {}
+
+    def setup(it, fr, bound):
+        it.engine.int_parse_hook = int16_hook
+        it.entry_args['g1'] = bound['m'].group1
+    c.setup = setup
+
+    def decoded(s):
+        g1 = s.g1
+        v = g1.val
+        n = z3.Length(v) - 1
+        val = z3.If(n == 2, hexval(z3.SubString(v, 1, 2), 2),
+                    z3.If(n == 4, hexval(z3.SubString(v, 1, 4), 4), hexval(z3.SubString(v, 1, 8), 8)))
+        return z3.And(z3.Not(g1.is_none), val <= 0x10FFFF, s.result == z3.StrFromCode(val))
+    c.ensures('the-escaped-code-point', decoded)
+    c.exc_ensures('syntax-error-for-incomplete-or-out-of-range-escape', 'ManifestSyntaxError',
+                  lambda s: z3.Or(s.g1.is_none, z3.Not(s.g1.is_none)))
+
+    def prep(job, model):
+        g1 = (model or {}).get('arg!m.group1!0')
+        if not isinstance(g1, str):
+            from vp.replay import NotReplayable
+            raise NotReplayable('group 1 is None in the model')
+        job['args'] = [{'t': 'match', 'module': 'gemato.manifest', 'cls': 'ManifestPathEntry',
+                        'attr': 'escape_seq_re', 'string': '\\' + g1}]
+        return job
+    c.replay_prepare = prep
+
+
+# ---- A-re: model of escape_seq_re.sub(decode_char, s) -----------------------
+
+unescape = z3.Function('re_unescape', z3.StringSort(), z3.StringSort())
+unescape_ok = z3.Function('re_unescape_ok', z3.StringSort(), z3.BoolSort())
+ESCAPE_PATTERN = r'\\(x[0-9a-fA-F]{2}|u[0-9a-fA-F]{4}|U[0-9a-fA-F]{8})?'
+PROBES = ['\\x2F', '\\x2Fa', '\\u002F', '\\x41', 'a\\x20b']
+
+
+def _real_unescape(s):
+    """ground truth by running CPython's re with the pattern of the real class"""
+    def dec(m):
+        v = m.group(1)
+        if v is None:
+            raise ValueError
+        return chr(int(v[1:], 16))
+    return _re.sub(ESCAPE_PATTERN, dec, s)
+
+
+def unescape_axioms(ctx, s):
+    bs = z3.StringVal('\\')
+    r = unescape(s)
+    ctx.assume(z3.Implies(z3.Not(z3.Contains(s, bs)), z3.And(unescape_ok(s), r == s)))
+    ctx.assume(z3.Implies(unescape_ok(s), (z3.Length(r) == 0) == (z3.Length(s) == 0)))
+    ctx.assume(z3.Implies(z3.And(unescape_ok(s), z3.Length(s) > 0, z3.Not(z3.PrefixOf(bs, s))),
+                          z3.SubString(r, 0, 1) == z3.SubString(s, 0, 1)))
+    ctx.assume(z3.Implies(unescape_ok(s), z3.Length(r) <= z3.Length(s)))
+    for p in PROBES:
+        ctx.assume(z3.And(unescape_ok(z3.StringVal(p)), unescape(z3.StringVal(p)) == z3.StringVal(_real_unescape(p))))
+
+
+def re_sub_hook(it, pattern, callback, s, node):
+    if pattern != ESCAPE_PATTERN:
+        raise Unsupported('no A-re model for pattern %r' % pattern, node)
+    it.engine.assumed.add('A-re: escape_seq_re.sub(decode_char, s) = re_unescape(s) (copies text without backslashes, '
+                          'one character per escape, raises what the callback raises); ground instances by CPython')
+    s = it.ctx.force(s)
+    cb = it.ctx.force(callback)
+    con = it.engine.contract_for(cb) if isinstance(cb, VUserFunc) else None
+    raises = list(con.only_raises_ or []) if con is not None else None
+    if raises is None:
+        raise Unsupported('callback of re.sub has no contract', node)
+    unescape_axioms(it.ctx, s.t)
+    if it.ctx.branch(unescape_ok(s.t), 'unescape-ok'):
+        return VStr(unescape(s.t))
+    d = it.ctx.choose(len(raises), 're.sub-callback-raises') if len(raises) > 1 else 0
+    if not raises:
+        from vp.symex import Infeasible
+        raise Infeasible()
+    raise PyRaise(VExc(raises[d], [], {}, line=getattr(node, 'lineno', None)))
+
+
+TokenSeq = SeqT(Str)
+
+
+@contract('gemato/manifest.py', 'ManifestPathEntry.process_path', props=['C09', 'C18', 'C08'])
+def _(c):
+    c.params(cls=Any, data=TokenSeq)
+    c.returns(Str)
+    c.only_raises('ManifestSyntaxError')
+
+    def setup(it, fr, bound):
+        it.engine.re_sub_hook = re_sub_hook
+        bound['cls'] = VClass('ManifestPathEntry', 'gemato.manifest')
+        fr.locals['cls'] = bound['cls']
+        it.entry_args['cls'] = bound['cls']
+    c.setup = setup
+
+    c.requires('has-tag-field', lambda s: z3.Length(s.data) >= 1)
+    c.ensures('two-fields', lambda s: z3.Length(s.data) == 2)
+    c.ensures('decoded-path-is-relative-and-non-empty',
+              lambda s: z3.And(z3.Length(s.result) > 0, z3.SubString(s.result, 0, 1) != STR('/')))
+    c.ensures('is-the-unescaped-field', lambda s: z3.And(unescape_ok(s.data[1]), s.result == unescape(s.data[1])))
+
+    def prep(job, model):
+        job['qualname'] = 'ManifestPathEntry.process_path'
+        job['args'] = job['args'][1:]
+        return job
+    c.replay_prepare = prep
